@@ -1886,6 +1886,14 @@ class LeCreditBasedChannel(utils.EventEmitter):
         else:
             self._change_state(self.State.CONNECTION_ERROR)
 
+    def on_connection_rejected(self, reason: int) -> None:
+        # The peer answered the connection request with a Command Reject
+        if self.connection_result is not None and not self.connection_result.done():
+            self.connection_result.set_exception(
+                L2capError(reason, L2CAP_Command_Reject.Reason(reason).name)
+            )
+        self._change_state(self.State.CONNECTION_ERROR)
+
     def on_credits(self, credits: int) -> None:  # pylint: disable=redefined-builtin
         self.credits += credits
         logger.debug(f'received {credits} credits, total = {self.credits}')
@@ -2385,6 +2393,14 @@ class ChannelManager:
         self, _connection: Connection, _cid: int, packet: L2CAP_Command_Reject
     ) -> None:
         logger.warning(f'{color("!!! Command rejected:", "red")} {packet.reason}')
+
+        # A rejected LE credit-based connection request gets no other answer
+        if request := self.le_coc_requests.pop(
+            (_connection.handle, packet.identifier), None
+        ):
+            channel = self.find_channel(_connection.handle, request.source_cid)
+            if isinstance(channel, LeCreditBasedChannel):
+                channel.on_connection_rejected(packet.reason)
 
     def on_l2cap_connection_request(
         self, connection: Connection, cid: int, request: L2CAP_Connection_Request
